@@ -39,8 +39,11 @@ Inductive instr :=
 | IPushR (q : nat)                (* queue.push(callback (self,reg)); reg++   (Execute called from inside a callback) *)
 | ICnt                            (* cnt++ *)
 | ITimedWait (c m : nat)          (* pthread_cond_timedwait: as IWait, reg := 1 (signalled) / 0 (timed out) *)
-| IPoll (x q tgt : nat).          (* select()/poll() on the wake-up pipe x: blocks while x = 0; may time out (goto tgt).
+| IPoll (x q tgt : nat)          (* select()/poll() on the wake-up pipe x: blocks while x = 0; may time out (goto tgt).
                                      q = the queue the pipe announces (used by the runner to flag a lost wake-up) *)
+| IRunC (t1 t2 : nat)             (* cur->Run(); a callback that calls DrainCallbacks(): goto t2; one that calls Execute(): next; else goto t1 *)
+| IRunW (x t0 t1 : nat).          (* cur->Run() on the preference saver: payload 0 = CompleteSynchronization (goto t0), 1 = SetTerminate
+                                     (goto t1), v >= 2 = SavePreferencesToFile of the closure's own copy: x := v *)
 
 Inductive status := NotStarted | Fresh | Ready | Asleep (c m : nat) | Woken (m : nat) | Done.
 
@@ -128,6 +131,10 @@ Definition busy8 (s : state) (o : nat) : bool :=
 
 (* does callback c call Execute() again when it is run? (scenario parameter 100 + submitter) *)
 Definition resub (s : state) (c : cb) : bool := snd c <? pars s (100 + fst c).
+
+(* is c the (single) callback that queues a callback and then calls DrainCallbacks() itself? *)
+Definition isdrain (s : state) (c : cb) : bool :=
+  Nat.eqb (pars s 98) 1 && Nat.eqb (fst c) 1 && Nat.eqb (snd c) 0.
 
 (* one instruction of a Ready thread t; pick = which waiter a signal wakes *)
 Definition exec_instr (s : state) (t : tid) (pick : nat) (i : instr) : option state :=
@@ -232,6 +239,24 @@ Definition exec_instr (s : state) (t : tid) (pick : nat) (i : instr) : option st
                                      (with_reg (with_stat th (Asleep c m)) 1))
                   else Some (set_fault s BadUnlock)
       | None => Some (set_fault s BadUnlock)
+      end
+  | IRunC t1 t2 =>
+      match cur th with
+      | None => Some (set_fault s NoCallback)
+      | Some c => Some (set_thr (add_ran s (c, t)) t
+                          (if isdrain s c then with_pc (with_cur th None) t2
+                           else if resub s c then next (with_cur th None) else with_pc (with_cur th None) t1))
+      end
+  | IRunW x t0 t1 =>
+      if negb (live s x) then uaf else
+      match cur th with
+      | None => Some (set_fault s NoCallback)
+      | Some c =>
+          match snd c with
+          | 0 => Some (set_thr (add_ran s (c, t)) t (with_pc (with_cur th None) t0))
+          | 1 => Some (set_thr (add_ran s (c, t)) t (with_pc (with_cur th None) t1))
+          | v => Some (set_thr (add_ran (set_var s x v) (c, t)) t (next (with_cur th None)))
+          end
       end
   | IPoll x q tgt =>
       if negb (live s x) then uaf else
